@@ -27,7 +27,7 @@ from . import common as C
 from . import xmlschema_ref as X
 
 PROP = "C15"
-PROPS_MODULES = ["AsyncFix.Props.C15"]
+PROPS_MODULES = ["AsyncFix.Props.C15", "AsyncFix.Props.C15Resolve"]
 FINDINGS_MODULE = "AsyncFix.Findings.C15"
 ASSUMPTIONS = [
     "value validity (SchemaField.validate_value) is a parameter vv of the model and of the theorems; in the "
@@ -501,7 +501,8 @@ def mutants(ld, msg, base, rng, all_positions):
 def header_cases(ld, msg, rng):
     """instances with a header: valid, each header fault class, trailer members"""
     base = gen_valid(ld, msg, rng, with_header=True)
-    yield "valid-with-header", 0, base
+    # TT-FIX44.xml declares message type `b` but its MsgType enumeration lacks it: 35=b is an invalid value
+    yield ("valid-with-header" if allowed(ld, msg.msgtype, base)[0] else "with-header-msgtype-not-in-enum"), 0, base
     req = [k for k, n in enumerate(base) if n[1] in ld.hdr and n[1] != "8" and _find(ld.ref.header, n[1])[1][3]]
     if req:
         k = rng.choice(req)
